@@ -11,6 +11,7 @@ import (
 	"strings"
 
 	"github.com/llir/llvm/ir"
+	"github.com/llir/llvm/ir/constant"
 	"github.com/llir/llvm/ir/metadata"
 	"github.com/llir/llvm/ir/types"
 )
@@ -116,6 +117,22 @@ func (s *serializer) value(v reflect.Value) {
 			f := v.Interface().(*big.Float)
 			s.w("bigf(%s)", f.Text('p', 0))
 			return
+		}
+		switch c := v.Interface().(type) {
+		case *constant.Index:
+			// the parser wraps every constant gep index in an Index node; without
+			// inrange the wrapper carries nothing
+			if !c.InRange {
+				s.value(reflect.ValueOf(c.Constant))
+				return
+			}
+		case *constant.Int:
+			// an integer constant denotes its value modulo 2^width (i1 -1 is true)
+			if c.Typ != nil && c.X != nil && c.Typ.BitSize > 0 && c.Typ.BitSize <= 1<<20 {
+				mod := new(big.Int).Lsh(big.NewInt(1), uint(c.Typ.BitSize))
+				s.w("&constant.Int{Typ:i%d X:%s}", c.Typ.BitSize, new(big.Int).Mod(c.X, mod).String())
+				return
+			}
 		}
 		if IsIdentity(v) {
 			p := v.Pointer()
